@@ -94,15 +94,18 @@ class Run(object):
                     if only is not None and not only(o):
                         keep.append(o)
                         continue
-                    run.soft.add(o.rule)
                     if o.ok:
                         keep.append(o)
                     else:
+                        run.soft.add(o.rule)
                         run.note(o.rule, o.key, 'the syntactic rule does not follow this spelling (%s); the clause is decided by %s, which passes' % (o.detail[:160], by))
                 run.obs[self_.start:] = keep
-                for r in rules:
-                    run.soft.add(r)
                 if et is not None and issubclass(et, AnalysisError):
+                    # the rules could not follow this spelling at all: their instance floors cannot be met and are not enforced
+                    for o in inside:
+                        run.soft.add(o.rule)
+                    for r in rules:
+                        run.soft.add(r)
                     run.note(by, 'syntactic corroboration', 'unknown idiom for the syntactic rules (%s); the clause is decided by %s, which passes' % (str(ev)[:200], by))
                     return True
                 return False
